@@ -18,6 +18,12 @@ Configuration (facts re-extracted from the source):
   releaseOrder          order of the effects in Release
   acquireRechecks       Acquire compares the inode of its fd with the inode the path names after flock
   releaseClearsOnError  Release sets `l.file = nil` also when it reports an error (a further Release is a no-op)
+  closeReleasesLast     db.go closeInternal: lsm.Close, vlog.close, wal.Close, and only then dirLock.Release
+
+A contender may be a whole DB (`spawnDB`): Open = AcquireDirLock (then the storage is opened);
+Close = three storage-component steps (lsm, value log, WAL: they still read and write the working
+directory) and the Release of the lock, in the extracted order.  The DB *uses* the directory from
+the return of AcquireDirLock until its last storage component is closed.
 -/
 import NoKVModel.Conc.Sys
 
@@ -34,12 +40,14 @@ structure DLCfg where
   releaseOrder : RelOrder
   acquireRechecks : Bool
   releaseClearsOnError : Bool := true   -- Release ends with `l.file = nil` whether or not it reports an error
+  closeReleasesLast : Bool := true      -- DB.Close releases the directory lock after every storage component is closed
   deriving DecidableEq, Repr
 
-def DLCfg.good : DLCfg := ⟨.removeUnlockClose, true, true⟩
+def DLCfg.good : DLCfg := ⟨.removeUnlockClose, true, true, true⟩
 
 def DLCfg.Good (c : DLCfg) : Prop :=
-  c.releaseOrder = .removeUnlockClose ∧ c.acquireRechecks = true ∧ c.releaseClearsOnError = true
+  c.releaseOrder = .removeUnlockClose ∧ c.acquireRechecks = true ∧ c.releaseClearsOnError = true ∧
+  c.closeReleasesLast = true
 
 instance DLCfg.decGood (c : DLCfg) : Decidable c.Good := by unfold DLCfg.Good; exact inferInstance
 
@@ -61,6 +69,8 @@ inductive PC where
   | failed              -- AcquireDirLock returned an error (fd closed)
   | done                -- Release returned (once or several times); Release may be called again
   | rerel (k : Nat)     -- inside a repeated Release on a DirLock that kept its handle, k+1 effects done
+  | closing (k : Nat)   -- DB.Close in progress, lock not yet released, k storage components still open
+  | closingAfter (k : Nat)  -- DB.Close in progress AFTER the lock was released, k+1 steps to go (bad order only)
   deriving DecidableEq, Repr
 
 structure Thr where
@@ -69,6 +79,7 @@ structure Thr where
   failUnlink : Bool := false   -- environment: the next remove(LOCK) of this contender fails once (transient I/O error)
   err : Bool := false          -- the current / last Release has an error to report
   handle : Bool := false       -- after Release returned: `l.file` is still set, a further Release runs the sequence again
+  isDB : Bool := false         -- the contender is a DB: Close tears the storage down around the Release
   deriving DecidableEq, Repr
 
 structure St where
@@ -80,6 +91,7 @@ structure St where
 inductive Act where
   | spawn (tid : Nat)
   | spawnF (tid : Nat)          -- a contender whose first unlink of LOCK will fail
+  | spawnDB (tid : Nat)         -- a DB: Open, then Close
   | run (tid : Nat)
 
 def applyEff (s : St) (tid : Nat) (t : Thr) : Eff → St
@@ -99,7 +111,7 @@ def relStep (c : DLCfg) (s : St) (tid : Nat) (t : Thr) (e : Nat) : Option St :=
     let last : Bool := !decide (e + 1 < (effects c.releaseOrder).length)
     let err' := t.err || failed
     some { s1 with thr := upd s1.thr tid (some { t with
-      pc := if last then PC.done else PC.rel e,
+      pc := if last then (if t.isDB && !c.closeReleasesLast then PC.closingAfter 1 else PC.done) else PC.rel e,
       failUnlink := if eff = .remove then false else t.failUnlink,
       err := err',
       handle := if last then (if c.releaseClearsOnError then false else err') else t.handle }) }
@@ -134,7 +146,16 @@ def stepThr (c : DLCfg) (s : St) (tid : Nat) (t : Thr) : Option St :=
       -- not the file the path names any more: close (drops the flock), report "in use"
       some { s with lockedBy := upd s.lockedBy t.fd none, thr := upd s.thr tid (some { t with pc := .failed }) }
     else some { s with thr := upd s.thr tid (some { t with pc := .held }) }
-  | .held => relStep c s tid t 0
+  | .held =>
+    -- a plain DirLock user calls Release; a DB's Close first closes its storage components
+    if t.isDB then some { s with thr := upd s.thr tid (some { t with pc := .closing 3 }) }
+    else relStep c s tid t 0
+  | .closing k =>
+    if (if c.closeReleasesLast then 0 else 1) < k then
+      some { s with thr := upd s.thr tid (some { t with pc := .closing (k - 1) }) }   -- lsm / vlog / wal close
+    else relStep c s tid t 0                                                           -- dirLock.Release
+  | .closingAfter k =>
+    some { s with thr := upd s.thr tid (some { t with pc := if k = 0 then .done else .closingAfter (k - 1) }) }
   | .rel k => relStep c s tid t (k + 1)
   | .failed => none
   | .done =>
@@ -146,6 +167,8 @@ def step (c : DLCfg) (s : St) : Act → Option St
   | .spawn tid => if s.thr tid = none then some { s with thr := upd s.thr tid (some { pc := .open_ }) } else none
   | .spawnF tid =>
     if s.thr tid = none then some { s with thr := upd s.thr tid (some { pc := .open_, failUnlink := true }) } else none
+  | .spawnDB tid =>
+    if s.thr tid = none then some { s with thr := upd s.thr tid (some { pc := .open_, isDB := true }) } else none
   | .run tid =>
     match s.thr tid with
     | some t => stepThr c s tid t
@@ -157,5 +180,15 @@ def sys (c : DLCfg) : Sys St Act := { init := fun s => s = initSt, step := step 
 
 /-- "an open database holds the directory": between a successful Acquire and the start of Release -/
 def Holds (s : St) (tid : Nat) : Prop := ∃ t, s.thr tid = some t ∧ t.pc = .held
+
+/-- the contender works on the directory: it holds it, or it is a DB whose Close has not yet closed
+every storage component -/
+def usingPC : PC → Bool
+  | .held => true
+  | .closing _ => true
+  | .closingAfter _ => true
+  | _ => false
+
+def Using (s : St) (tid : Nat) : Prop := ∃ t, s.thr tid = some t ∧ usingPC t.pc = true
 
 end NoKV.Conc.DirLock
